@@ -383,6 +383,13 @@ class World:
 
 
 # ---------------------------------------------------------------- patching
+# A multi-node launcher (torchrun, one process per node) exports LOCAL_RANK=0 on every process although the
+# global ranks differ: nothing in the library may take the local rank for the rank (threads share os.environ,
+# so only launcher variables that are equal on all processes of such a launch are set).
+import os as _os
+_os.environ.setdefault('LOCAL_RANK', '0')
+_os.environ.setdefault('LOCAL_WORLD_SIZE', '1')
+
 def _w():
     w = getattr(_tls, 'world', None)
     return w
